@@ -1811,15 +1811,21 @@ def _getitem_batch_size(batch_size, index):
             if idx.dtype == torch.bool:
                 shape = torch.Size([idx.sum()])
                 boolean = True
-            else:
+            elif idx.ndim:
                 shape = idx.shape
+            else:
+                # a 0-d integer tensor selects like an int, it is not an advanced index
+                shape = None
         elif isinstance(idx, np.ndarray):
             if idx.dtype == np.dtype("bool"):
                 shape = torch.Size([idx.sum()])
                 boolean = True
-            else:
+            elif idx.ndim:
                 shape = idx.shape
-        elif isinstance(idx, slice):
+            else:
+                shape = None
+        elif isinstance(idx, slice) or idx is None:
+            # a slice or a new axis after an advanced index separates it from the next one
             look_for_disjoint = not disjoint and (len(shapes_dict) > 0)
             shape = None
         else:
